@@ -98,6 +98,7 @@ type Ghost struct {
 	// current spec, under the rollout's current canary revision and plan hash (reset when either changes).
 	BrEver     bool   `json:"brEver"`   // a BatchRelease has existed since the release started
 	JumpBack   bool   `json:"jumpBack"` // the user jumped to a lower step index during this release
+	LateChange bool   `json:"lateChange"` // the user changed the template while the rollout was already finalising / cancelling
 	ReadySteps []int  `json:"readySteps"`
 	ReadyRev   string `json:"readyRev"`
 }
@@ -639,6 +640,11 @@ func (w *World) userDo(a string) error {
 		return w.WL.Release(w, 2)
 	case a == "user.release3":
 		w.Ghost.Rev = 3
+		if ro := w.getRollout(); ro != nil {
+			if reason, _, _ := condReason(ro.Status.Conditions, v1beta1.RolloutConditionProgressing); reason == "Finalising" || reason == "Cancelling" || reason == "Completed" {
+				w.Ghost.LateChange = true
+			}
+		}
 		return w.WL.Release(w, 3)
 	case a == "user.rollback":
 		w.Ghost.Rev = 1
@@ -764,7 +770,9 @@ func (w *World) userEnabled(a string, ro *v1beta1.Rollout) bool {
 		// (reverting the template before any pod was updated is just another template change)
 		wl := w.WL.Project(w)
 		n, _ := wl["n"].([]int)
-		return w.Ghost.Rev >= 2 && inProgress && len(n) >= w.Ghost.Rev && n[w.Ghost.Rev-1] > 0
+		reason, _, _ := condReason(ro.Status.Conditions, v1beta1.RolloutConditionProgressing)
+		return w.Ghost.Rev >= 2 && inProgress && len(n) >= w.Ghost.Rev && n[w.Ghost.Rev-1] > 0 && n[0] > 0 &&
+			(reason == "InRolling" || reason == "Paused")
 	case a == "user.scale":
 		return inProgress
 	case a == "user.approve":
